@@ -254,6 +254,81 @@ def poseidon_families(F, ck):
     ck.floor('R07.7', 'Poseidon helper variant pairs compared', ncmp, 6)
 
 
+SETTERS = {'set_wire', 'set_wires', 'set_ext_wires', 'set_extension_target', 'set_target', 'set_extension_targets'}
+
+
+def accessor_ranges(F, fn, accs, written_only):
+    """{(accessor, loop length)}: indexed accessor calls whose argument uses the variable of an enclosing range loop of that length;
+    written_only: only calls inside the arguments of witness setters (what a generator writes)"""
+    from . import poly
+    from .facts import pat_binds
+    E = poly.Ev(F)
+    out = set()
+
+    def rng_len(it, env):
+        x = it
+        while isinstance(x, dict) and x.get('k') == 'MCall' and x['n'] in ('map', 'rev', 'enumerate', 'into_iter', 'iter', 'zip', 'collect', 'flat_map'):
+            x = x['r']
+        if isinstance(x, dict) and x.get('k') == 'Struct' and 'Range' in (x.get('d') or ''):
+            f = dict(x['f'])
+            try:
+                a = E.ev(fn, f['start'], env, 3) if 'start' in f else {}
+                b = E.ev(fn, f['end'], env, 3)
+                return poly.show(poly.add(b, a, -1))
+            except (poly.Unknown, KeyError):
+                return '?'
+        return None
+
+    def rec(n, loops, env, in_set):
+        if not isinstance(n, dict):
+            return
+        k = n.get('k')
+        if k == 'Block':
+            e2 = dict(env)
+            for s_ in n['st']:
+                rec(s_, loops, e2, in_set)
+                if s_.get('k') == 'Let' and 'i' in s_ and s_['p'].get('k') == 'Bind':
+                    try:
+                        e2[s_['p']['id']] = E.ev(fn, s_['i'], e2, 3)
+                    except poly.Unknown:
+                        pass
+            if 'e' in n:
+                rec(n['e'], loops, e2, in_set)
+            return
+        if k == 'For':
+            ln = rng_len(n['it'], env)
+            rec(n['it'], loops, env, in_set)
+            rec(n['b'], loops + [([b['id'] for b in pat_binds(n['p'])], ln)], env, in_set)
+            return
+        if k == 'MCall' and n.get('n') in ('map', 'for_each', 'flat_map') and any(a.get('k') == 'Closure' for a in n.get('a', [])):
+            ln = rng_len(n['r'], env)
+            rec(n['r'], loops, env, in_set)
+            for a in n['a']:
+                if a.get('k') == 'Closure':
+                    rec(a['b'], loops + [([b['id'] for p in a['p'] for b in pat_binds(p)], ln)], env, in_set)
+                else:
+                    rec(a, loops, env, in_set)
+            return
+        if k in ('Call', 'MCall'):
+            nm = parse_path(callee(n) or '')[1] or n.get('n')
+            if nm in accs and n.get('a') and (in_set or not written_only):
+                for a in n['a']:
+                    lids = {y['id'] for y in walk(a) if y.get('k') == 'Local'}
+                    for ids, ln in loops:
+                        if ln and lids & set(ids):
+                            out.add((nm, ln))
+            if nm in SETTERS:
+                if k == 'MCall':
+                    rec(n['r'], loops, env, in_set)
+                for a in n.get('a', []):
+                    rec(a, loops, env, True)
+                return
+        for c in kids(n):
+            rec(c, loops, env, in_set)
+    rec(fn.body, [], {}, False)
+    return out
+
+
 def run(F, ck, tier):
     ck.rule('R07.1', 'every wire accessor used by the gate\'s witness generators flows into an emitted constraint in each evaluator')
     ck.rule('R07.2', 'the evaluators of one gate constrain the same wire accessors; if/else arms advance the same counters')
@@ -351,6 +426,36 @@ def run(F, ck, tier):
                   'LOOP BOUND DISAGREEMENT in %s: %s iterates over ranges of length [%s] where eval_unfiltered has [%s]: the evaluators emit different constraints (a range taken from the wrong field, e.g. bits instead of num_copies)' %
                   (g['short'], nm, ', '.join(b), ', '.join(ref)), '%s:%d' % ((g['fns'].get(nm) or g['packed']).file, (g['fns'].get(nm) or g['packed']).line))
     ck.floor('R07.6', 'evaluator pairs with compared loop bounds', nb, 20)
+    # R07.8 every indexed wire the generator WRITES over a range is constrained over the same range by each evaluator
+    ck.rule('R07.8', 'an indexed wire accessor that the generator writes inside a range loop (wire_output(i) for i in 0..12) is used by every evaluator inside a loop of the same length: a constraint loop narrowed to a sub-range leaves the remaining generated wires unpinned')
+    nrng = 0
+    for g in sorted(gates, key=lambda x: x['short']):
+        if g['short'] in NO_LOCAL_CONSTRAINTS:
+            continue
+        gen = set()
+        for ge in g['gens']:
+            if ge.name == 'run_once':
+                gen |= accessor_ranges(F, ge, g['accs'], written_only=True)
+        if not gen:
+            continue
+        evs = []
+        for nm in ('eval_unfiltered', 'eval_unfiltered_circuit', 'eval_unfiltered_base_one'):
+            f = g['fns'].get(nm)
+            if f is not None and not is_stub(f):
+                evs.append(f)
+        if g['packed'] is not None:
+            evs.append(g['packed'])
+        for f in evs:
+            have = accessor_ranges(F, f, g['accs'], written_only=False)
+            for acc, ln in sorted(gen):
+                if ln == '?':
+                    continue
+                nrng += 1
+                ok = (acc, ln) in have
+                ck.ob('R07.8', 'range:%s:%s:%s' % (g['short'], f.name, acc), ok, 'used over a range of length %s like in the generator' % ln if ok else
+                      'RANGE NOT COVERED: the generator of %s writes %s(i) for a range of length %s, but %s uses it only over %s: the wires outside that range are generated but not pinned by this evaluator' %
+                      (g['short'], acc, ln, f.qual, sorted(l for a, l in have if a == acc) or 'no range loop'), '%s:%d' % (f.file, f.line))
+    ck.floor('R07.8', 'generator-written accessor ranges checked against evaluators', nrng, 20)
     # R07.7 Poseidon helper families (what the PoseidonGate evaluators call): index expressions and constant tables agree
     poseidon_families(F, ck)
     # R07.4
